@@ -181,7 +181,7 @@ def call_repo(eng, st, q, this, args, n):
     st.this = this if this is not None else st.this
     eng.inline_depth += 1
     eng.inline_contract = c
-    eng.loop_ordinal = 0
+    eng.index_loops(fn)
     saved_exc = eng.exc
     eng.exc = []
     res = eng.ex(body, st)
@@ -250,20 +250,11 @@ def std_copy(eng, st, first, last, out, line):
         raise Unsupported('mixed iterators')
     if isinstance(out, BackInserter):
         dst = st.heap[out.oid]
-        if first.rev:
-            # copying a reversed range [rbegin+a, rbegin+b): element k is src[len-1-(a+k)]
-            lo, hi = first.pos, last.pos
-            eng.oblige(st, 'II', 'std::copy:source-range-valid', z3.And(0 <= lo, lo <= hi, hi <= src.len), line)
-            j = z3.Int('j!lam')
-            d = {}
-            for k, a in dst.f:
-                d[k] = z3.Lambda([j], z3.If(j < dst.len, z3.Select(a, j),
-                                            z3.Select(src.arr(k), src.len - 1 - (lo + (j - dst.len)))))
-            st.heap[out.oid] = NodeVec(dst.len + (hi - lo), tuple(d.items()), dst.name)
-            return out
         lo, hi = first.pos, last.pos
         eng.oblige(st, 'II', 'std::copy:source-range-valid', z3.And(0 <= lo, lo <= hi, hi <= src.len), line)
-        st.heap[out.oid] = dst.append_slice(src, lo, hi)
+        newvec, facts = dst.append_slice(src, lo, hi, rev=first.rev)
+        st.heap[out.oid] = newvec
+        st.facts += facts
         return out
     raise Unsupported(f'std::copy into {out!r}')
 
@@ -277,10 +268,15 @@ def std_reverse(eng, st, first, last, line):
     # whole-vector reverse only (begin(), end())
     eng.oblige(st, 'II', 'std::reverse:whole-range', z3.And(first.pos == 0, last.pos == v.len), line)
     if isinstance(v, NodeVec):
-        d = {k: z3.Lambda([j], z3.Select(a, v.len - 1 - j)) for k, a in v.f}
-        st.heap[first.oid] = NodeVec(v.len, tuple(d.items()), v.name)
+        newvec, facts = v.reversed()
+        st.heap[first.oid] = newvec
+        st.facts += facts
     elif isinstance(v, ScalarVec):
-        st.heap[first.oid] = replace(v, arr=z3.Lambda([j], z3.Select(v.arr, v.len - 1 - j)))
+        tag = f'rev!{next(M._counter)}'
+        arr = z3.Array(tag, Int, v.sort)
+        st.facts.append(z3.ForAll([j], z3.Implies(z3.And(0 <= j, j < v.len), z3.Select(arr, j) == z3.Select(v.arr, v.len - 1 - j)),
+                                  patterns=[z3.Select(arr, j)]))
+        st.heap[first.oid] = replace(v, arr=arr)
     else:
         raise Unsupported('reverse of ' + repr(v))
 
@@ -753,7 +749,9 @@ def construct(eng, n, st):
         outs = []
         for s, vals in eng.ev_seq(args_n, st):
             v = vals[0]
-            if len(vals) == 1 and isinstance(v, Ptr) and isinstance(s.heap.get(v.oid), (NodeVec, ScalarVec)):
+            if len(vals) == 1 and isinstance(v, Ptr) and isinstance(s.heap.get(v.oid), PtrVec):
+                outs.append((s, v))                                   # move construction
+            elif len(vals) == 1 and isinstance(v, Ptr) and isinstance(s.heap.get(v.oid), (NodeVec, ScalarVec)):
                 outs.append((s, Ptr(s.alloc(s.heap[v.oid]))))      # copy construction
             elif len(vals) == 2 and isinstance(vals[0], Iter) and isinstance(vals[1], Iter):
                 src = s.heap[vals[0].oid]
